@@ -2,7 +2,7 @@
 # takeref.sh Cxx : keep the harmless refactors of /tmp/r/Cxx-out whose patch applies and under which the 133 tests pass
 ID=$1; WT=/tmp/r/$ID
 cd $WT && git checkout -q -- . || exit 1
-for n in 1 2 3; do
+for n in ${2:-1 2 3}; do
   D=/tmp/r/$ID-out/$n; [ -f $D/patch.diff ] || continue
   git apply $D/patch.diff || { echo "$ID-$n patch does not apply"; continue; }
   t=$(/venv/bin/python -m pytest -q -p no:cacheprovider --timeout=900 pydl 2>&1 | tail -1 | sed 's/\x1b\[[0-9;]*m//g')
